@@ -534,9 +534,10 @@ def expected_text(pl, new_state, new_text):
     return ref.render(pl.ast, new_state)
 
 
-def check_after(proj, after, new_state, new_text, check_pep=True):
+def check_after(proj, after, new_state, new_text, check_pep=True, collect=None):
     """Compare the files after a successful update with the expectation.
-    Returns list of (class, message). `after`: {relpath: bytes}."""
+    Returns list of (class, message[, plant]). `after`: {relpath: bytes}. If `collect` is a list, the
+    occurrences as found after the update are appended to it as Plant objects (for multi-step histories)."""
     problems = []
     for fn, old in proj.files.items():
         if fn not in after:
@@ -558,6 +559,7 @@ def check_after(proj, after, new_state, new_text, check_pep=True):
                 ok = False
                 break
             npos += len(seg)
+            start_new = npos
             exp = expected_text(pl, new_state, new_text)
             if exp is not None:
                 got = new[npos:npos + len(exp)]
@@ -570,7 +572,7 @@ def check_after(proj, after, new_state, new_text, check_pep=True):
             else:
                 pre, suf = _pep_prefix(pl), _pep_suffix(pl)
                 if new[npos:npos + len(pre)] != pre:
-                    problems.append(("stale-or-wrong-occurrence", f"{fn}: {pl.raw!r} prefix lost"))
+                    problems.append(("stale-or-wrong-occurrence", f"{fn}: {pl.raw!r} prefix lost", pl))
                     ok = False
                     break
                 npos += len(pre)
@@ -579,7 +581,7 @@ def check_after(proj, after, new_state, new_text, check_pep=True):
                 if suf:
                     j = new.find(suf, npos)
                     if j < 0:
-                        problems.append(("stale-or-wrong-occurrence", f"{fn}: {pl.raw!r} suffix lost"))
+                        problems.append(("stale-or-wrong-occurrence", f"{fn}: {pl.raw!r} suffix lost", pl))
                         ok = False
                         break
                 else:
@@ -594,6 +596,9 @@ def check_after(proj, after, new_state, new_text, check_pep=True):
                     except InvalidVersion:
                         problems.append(("pep440-occurrence-invalid", f"{fn}: {pl.raw!r}: wrote {x!r} for {new_text!r}"))
                 npos = j + len(suf)
+            if collect is not None:
+                collect.append(Plant(file=fn, start=start_new, end=npos, kind=pl.kind, raw=pl.raw, norm=pl.norm,
+                                     ast=pl.ast, text=new[start_new:npos]))
             opos = pl.end
         if ok:
             if new[npos:] != old[opos:]:
@@ -602,6 +607,19 @@ def check_after(proj, after, new_state, new_text, check_pep=True):
         if fn not in proj.files:
             problems.append(("unexpected-file", fn))
     return problems
+
+
+def advance(proj, after, new_state, new_text, plants):
+    """The project as it is after a verified update (files = what is on disk, occurrences re-located)."""
+    import copy
+    q = copy.copy(proj)
+    q.files = {fn: after[fn].decode("utf-8") for fn in proj.files}
+    q.plants = plants
+    q.cur_text = new_text
+    q.cur_state = new_state
+    return q
+
+
 
 
 # ---------------------------------------------------------------------------------------
